@@ -11,6 +11,10 @@ BAD_FILES = [
     ("wrong first line", "% NOT AN RT OSC v0.3.1 savefile\n% app1 v1.2.3\n/pi 7\n"),
     ("no header", "/pi 7\n"),
     ("other application", "% RT OSC v0.3.1 savefile\n% app2 v1.2.3\n/pi 7\n"),
+    ("application whose name extends ours", "% RT OSC v0.3.1 savefile\n% app12 v1.2.3\n/pi 7\n"),
+    ("application whose name extends ours (letter)", "% RT OSC v0.3.1 savefile\n% app1x v1.2.3\n/pi 7\n"),
+    ("application whose name is a prefix of ours", "% RT OSC v0.3.1 savefile\n% app v1.2.3\n/pi 7\n"),
+    ("application whose name ends with ours", "% RT OSC v0.3.1 savefile\n% xapp1 v1.2.3\n/pi 7\n"),
     ("application version missing", "% RT OSC v0.3.1 savefile\n% app1\n/pi 7\n"),
     ("unparsable line", "% RT OSC v0.3.1 savefile\n% app1 v1.2.3\n/pi 7\n/pf $$$\n"),
     ("unterminated string", "% RT OSC v0.3.1 savefile\n% app1 v1.2.3\n/ps \"abc\n"),
